@@ -9,6 +9,10 @@
 //! the batch in a fresh process.
 //! `--reuse N`: one Engine serves N consecutive programs (every program defines all the globals it uses); the
 //! caller re-runs every disagreeing program with a fresh engine, so reuse can only hide, never create, a report.
+//! Histories: a program that contains lines `;;;---` is a sequence of PIECES, each one evaluation
+//! (`compile_and_run_raw_program`) on the SAME engine, like forms typed into a REPL: a piece that ends with an
+//! uncaught error contributes the pseudo value `!err` (the values of its earlier forms are not reported) and the
+//! next piece runs on.  Such a program always yields a `\x1eV` record (or `\x1eP`).
 //! Environment: STEEL_JIT, STEEL_VERIF_GC_EVERY … are read by the engine itself.
 use std::io::{Read, Write};
 use std::panic::{catch_unwind, AssertUnwindSafe};
@@ -49,13 +53,29 @@ fn main() {
             served = 0;
         }
         served += 1;
+        let pieces: Vec<String> = prog.split("\n;;;---\n").map(|x| x.to_string()).collect();
+        let history = pieces.len() > 1;
+        let mut failed = false;
         let r = catch_unwind(AssertUnwindSafe(|| {
             if engine.is_none() {
                 engine = Some(steel::steel_vm::engine::Engine::new());
             }
-            engine.as_mut().unwrap().compile_and_run_raw_program(prog)
+            if !history {
+                return engine.as_mut().unwrap().compile_and_run_raw_program(prog);
+            }
+            let mut all = Vec::new();
+            for piece in pieces {
+                match engine.as_mut().unwrap().compile_and_run_raw_program(piece) {
+                    Ok(vals) => all.extend(vals),
+                    Err(_) => {
+                        failed = true;
+                        all.push(steel::SteelVal::SymbolV("!err".into()));
+                    }
+                }
+            }
+            Ok(all)
         }));
-        if !matches!(r, Ok(Ok(_))) {
+        if failed || !matches!(r, Ok(Ok(_))) {
             engine = None; // an error or a panic: the next program gets a fresh engine
         }
         std::io::stdout().flush().ok();
